@@ -96,6 +96,9 @@ func stdSeqJoin(_ context.Context, joiner, subject rel.Value) (rel.Value, error)
 	case rel.EmptySet:
 		return rel.None, nil
 	case rel.Array:
+		if isBytesJoin(joiner, subject) {
+			return bytesArrayJoin(joiner, subject)
+		}
 		switch subject.Values()[0].(type) {
 		case rel.String:
 			// if subject is rel.String
